@@ -42,6 +42,10 @@ func InitStream(p *xml.Decoder) (sessionID string, err error) {
 				}
 			}
 			return sessionID, err
+		case xml.EndElement:
+			if elem.Name.Space == NSStream && elem.Name.Local == "stream" {
+				return sessionID, errors.New("xmpp: stream closed by the server")
+			}
 		}
 	}
 }
